@@ -958,6 +958,17 @@ def recount(ctx, pid):
                     arg = eng.ev(ev.node.args[0], f, st) if ev.node.args else None
                     if arg is not None and node1 in list(_subterms(arg)) + [arg]:
                         pushes.append((tg.meth, arg))
+            if ev.k == "stmt" and isinstance(ev.node, ast.AugAssign) and isinstance(ev.node.target, ast.Name) and isinstance(ev.node.op, ast.Add) and node1 is not None:
+                # worklist += [x]  /  worklist += xs   are append / extend
+                v_ = ev.node.value
+                if isinstance(v_, ast.List) and len(v_.elts) == 1:
+                    a_ = eng.ev(v_.elts[0], f, st)
+                    if node1 in list(_subterms(a_)) + [a_]:
+                        pushes.append(("append", a_))
+                else:
+                    a_ = eng.ev(v_, f, st)
+                    if node1 in list(_subterms(a_)) + [a_]:
+                        pushes.append(("extend", a_))
             if ev.k == "stmt" and isinstance(ev.node, ast.AugAssign) and isinstance(ev.node.target, ast.Subscript):
                 idx = eng.ev(ev.node.target.slice, f, st)
                 val = eng.ev(ev.node.value, f, st)
@@ -979,7 +990,14 @@ def recount(ctx, pid):
             for t, pol, _ in st.log:
                 r = rel_norm(t, pol) or truth_norm(t, pol)
                 if K in list(_subterms(r)) or (isinstance(r, tuple) and K in r):
-                    conds.add(r)
+                    if r[0] == "notin" and r[2][0] == "c" and isinstance(r[2][1], (tuple, frozenset)):
+                        for v_ in r[2][1]:  # K not in (a, b)  is  K != a and K != b
+                            conds.add(("!=", r[1], C(v_)))
+                    elif r[0] == "notin" and r[2][0] in ("tuple", "list", "set"):
+                        for v_ in r[2][1]:
+                            conds.add(("!=", r[1], v_))
+                    else:
+                        conds.add(r)
             want = {("!=", K, C(b"")), (("call", "ext:isinstance", (K, ("g", "list")), ()), False), ("!=", K, C(bnh))}
             got = {c_ for c_ in conds if not (c_[0] in ("==", "!=") and False)}
             if not want <= got:
